@@ -52,7 +52,7 @@ def gen_frag(rng, tier):
         BC._UNIS[u.modname] = u
         yield {"ctx": u.export_ctx(), "value": value, "clazz": "Root", "desc": desc, "_uni": u.modname, "feat": W.FEAT,
                "ns_map": [], "cfg": {}}
-    for _ in range(BC.n_cases(tier, 60, 2500)):
+    for _ in range(BC.n_cases(tier, 60, 1500)):
         u, desc, ctx = BC.new_universe(rng, W.WIDE_FEATURES)
         if rng.random() < 0.12:
             try:
